@@ -18,6 +18,10 @@ ROOT = "/verif/seeded"
 
 def one(seed):
     pid = seed.split("_")[0]
+    try:
+        pid = json.load(open(os.path.join(ROOT, seed, "meta.json"))).get("check_with", [pid])[0]  # a few changes belong to another property's check
+    except Exception:
+        pass
     r = subprocess.run(["/venv/bin/python", "/verif/tools/seedcheck.py", os.path.join(ROOT, seed), pid, "--keep"], capture_output=True, text=True)
     try:
         res = json.loads(r.stdout[: r.stdout.rindex("}") + 1])
@@ -27,7 +31,7 @@ def one(seed):
     chk = res.get("checks", {}).get(pid, {})
     state = "CAUGHT" if (ok_demo and chk.get("caught")) else ("MISSED" if ok_demo else "UNCONFIRMED")
     first = next((l.strip() for l in chk.get("lines", []) if l.strip().startswith("what")), "")
-    return seed, state, first[:160]
+    return seed, state, ("[%s] " % pid if pid != seed.split("_")[0] else "") + first[:160]
 
 
 def group(seeds):
@@ -42,7 +46,12 @@ def main():
     seeds = sorted(d for d in os.listdir(ROOT) if os.path.isdir(os.path.join(ROOT, d)) and (not args or d.split("_")[0] in args))
     by = {}
     for s in seeds:
-        by.setdefault(s.split("_")[0], []).append(s)
+        cid = s.split("_")[0]
+        try:
+            cid = json.load(open(os.path.join(ROOT, s, "meta.json"))).get("check_with", [cid])[0]
+        except Exception:
+            pass
+        by.setdefault(cid, []).append(s)  # grouped by the check that runs, so that no check runs twice at a time
     bad = 0
     with ThreadPoolExecutor(jobs) as ex:
         for out in ex.map(group, by.values()):
